@@ -84,7 +84,10 @@ CHECKS = {
         ref="7 (C08)"),
     "C09": dict(
         text="Lean 4 proof (full): argmax_first (first key attaining the maximum, any total transitive comparison), predict_eq_argmax "
-             "(predict is that arg-max of the expectations computed from the same state and draws). Correspondence on predict outputs; "
+             "(predict is that arg-max of the expectations computed from the same state and draws), impPredict_eq_argmax with "
+             "nhoodRow_predict_eq_argmax / clusters_predictChunk_eq_argmax / tree_predictChunk_eq_argmax (the same row by row under "
+             "every neighbourhood policy; the exceptions are exactly the named ones: empty neighbourhood - nhoodRow_empty - and "
+             "TreeBandit with EpsilonGreedy). Correspondence on predict outputs; "
              "predict vs predict_expectations on deep copies incl. exact ties.",
         ref="7 (C09)"),
     "C10": dict(
